@@ -12,7 +12,7 @@ from .c02 import nonneg
 EXPLANATION = (
     "Structural clauses only: (R1) the solver's exit is guarded by exactly the conjunction of two allclose tests, one "
     "between the carried voltage vector and this sweep's forward result under rtol=vtol, one between the carried current "
-    "vector and this sweep's backward result under rtol=itol, with no other tolerance keyword, no re-binding of the "
+    "vector and this sweep's backward result under rtol=itol, both with a zero absolute tolerance (atol=0) and no other keyword, no re-binding of the "
     "operands before the test, the sweep counter incremented once per sweep and the carried triple replaced afterwards; "
     "(R2) the loop is bounded by maxiter and the solver call in solve() is followed, before any use of its results, by a "
     "RuntimeError raised under exactly the negation of the loop condition; (R3) every output-voltage leaf of the passive "
@@ -33,6 +33,7 @@ def run(model, rep, tier):
     r = sysrules.roles(model)
     A(r1_r2, model, rep, r)
     A(r3, model, rep)
+    A(r5_initial_current, model, rep)
     A(lambda: sysrules.phase_list_rule(model, rep, r, sysrules.solve_anchors(model, r), labels=("R4-list", "R4")))
 
 
@@ -75,15 +76,27 @@ def r1_r2(model, rep, r):
     else:
         seen = {}
         for c in calls:
-            ops = [strip_array(a) for a in c.args]
+            ops = [strip_array(a) for a in c.args[:2]]
             kws = {k.arg: k.value for k in c.keywords}
+            for nm, a in zip(("rtol", "atol", "equal_nan"), c.args[2:]):     # numpy's positional order
+                kws[nm] = a
             if len(ops) != 2 or not all(isinstance(o, ast.Name) for o in ops):
                 viol("R1", "an allclose test does not compare two vectors by name", "allclose operands")
                 ok = False
                 continue
             pair = frozenset(o.id for o in ops)
-            if set(kws) != {"rtol"} or not isinstance(kws["rtol"], ast.Name):
-                viol("R1", "allclose(%s) is called with tolerance keywords %s, expected exactly rtol=<parameter>" % (", ".join(sorted(pair)), sorted(kws)), "allclose keywords %s" % sorted(kws))
+            if not set(kws) <= {"rtol", "atol"} or not isinstance(kws.get("rtol"), ast.Name):
+                viol("R1", "allclose(%s) is called with tolerance keywords %s, expected rtol=<parameter> and atol=0" % (", ".join(sorted(pair)), sorted(kws)), "allclose keywords %s" % sorted(kws))
+                ok = False
+                continue
+            at = kws.get("atol")
+            if at is not None:
+                at = model.fold_const(at) if hasattr(model, "fold_const") else at
+            if not (isinstance(at, ast.Constant) and isinstance(at.value, (int, float)) and not isinstance(at.value, bool) and at.value == 0):
+                viol("R1", "allclose(%s) is called %s: a change below that absolute amount counts as no change, so quantities smaller than it "
+                     "(nano-amp sleep currents) are returned at their initial value although the requested relative tolerance is not met" % (
+                         ", ".join(sorted(pair)), "without atol, i.e. with numpy's default absolute tolerance 1e-8" if at is None else "with atol=%s" % ast.unparse(at)),
+                     "allclose absolute tolerance %s" % ("default" if at is None else ast.unparse(at)))
                 ok = False
                 continue
             seen[pair] = kws["rtol"].id
@@ -275,3 +288,63 @@ def r3(model, rep):
             raise AnalysisError("%s has no active row" % construct)
         n += 1
     rep.floor("R3", n, 6)
+
+
+# ------------------------------------------------------------------------------------------------ R5
+def r5_initial_current(model, rep):
+    """The first forward sweep evaluates the series laws with the *initial* currents, and their polarity guards raise
+    'Unstable system' on that intermediate iterate.  For a kind whose input-current law depends on nothing the solver computes
+    (neither the input voltage nor the output current: the value is known before the first sweep) the initial current must
+    therefore be the law's value for the phase being solved: any other seed is a load the system never has, and a seed larger than
+    the real current makes solve() raise although a benign steady state exists."""
+    from ..laws import summarize_law, rows, select, subst_value, values_equal, show_alpha, is_dead_row, LawHooks, base_ctx, law_args, METH
+    from ..summ import Summarizer, show_value
+    from ..core import KINDS
+    rel = model.rel("components")
+    n = 0
+    dynamic = {("m", "vi[0]"), ("s", "vi[0]"), ("nn", "io"), ("nn", "ii"), ("m", "vo"), ("s", "vo")}
+
+    def depends_on_solver(v):
+        from ..terms import RF
+        if isinstance(v, RF):
+            for a in v.atoms():
+                if a in dynamic or any(d[1] in repr(a) for d in dynamic if isinstance(d[1], str) and d[1] in ("vi[0]", "io")):
+                    return True
+            return False
+        return not isinstance(v, (int, float))
+    for kind in KINDS:
+        owner, fn, leaves, ctx = summarize_law(model, kind, "I", False)
+        live = []
+        for alpha, lf, mp, rctx in rows(leaves, ctx):
+            if is_dead_row(alpha, kind):
+                continue
+            live.append((alpha, lf, mp, rctx))
+        if not live or any(lf.kind != "return" or depends_on_solver(subst_value(lf.value, mp, rctx)) for alpha, lf, mp, rctx in live):
+            continue
+        # voltage- and current-independent law: the seed must equal it row by row
+        o2, f2 = model.method(kind, "_get_inp_current")
+        construct = "components.%s._get_inp_current" % o2
+        where = "%s:%d" % (rel, f2.lineno)
+        sm = Summarizer(LawHooks(model, kind, False), base_ctx(kind, False))
+        args = {k: v for k, v in law_args("I", False).items() if k in ("self", "phase", "phase_conf")}
+        pnames = [a.arg for a in f2.args.args]
+        if pnames[:3] != ["self", "phase", "phase_conf"]:
+            raise AnalysisError("%s: unexpected signature %s" % (construct, pnames))
+        seeds = sm.summarize(f2, args)
+        ok = True
+        for alpha, lf, mp, rctx in live:
+            s_lf = select(seeds, alpha)
+            if s_lf is None:
+                raise AnalysisError("%s: the seed branches on something the law does not" % construct)
+            same = s_lf.kind == "return" and values_equal(subst_value(s_lf.value, mp, rctx), subst_value(lf.value, mp, rctx))[0]
+            if not same:
+                ok = False
+                rep.violation("R5", construct, where,
+                              "the solver is seeded with %s but the component draws %s on row {%s}: the first sweep evaluates the series elements' "
+                              "polarity guards with a current the system never has, so solve() can raise 'Unstable system' although a benign steady state exists" % (
+                                  show_value(s_lf.value) if s_lf.kind == "return" else s_lf.kind, show_value(subst_value(lf.value, mp, rctx)), show_alpha(alpha)),
+                              "seed differs from law")
+                break
+        rep.instance("R5", construct + " seeds the solver with the law's current", where, ok, "%d live rows" % len(live))
+        n += 1
+    rep.floor("R5", n, 1)
